@@ -670,5 +670,6 @@ def ctrl_malformed_campaign(ctx, n, use_msan=True):
                 if not any("msan" in w for w in found.get(key, [])):
                     found.setdefault(key, []).append(dict(case=_show_case(cases[k]), msan=txt, model=model[k]))
     else:
-        ctx.note("ctrl_malformed_campaign: no MSan build (clang missing); uninitialised reads are looked for by the stale-stack differential only")
+        ctx.note("ctrl_malformed_campaign: %s; uninitialised reads are looked for by the stale-stack differential only"
+                 % ("the MSan build is used in the thorough tier only" if not use_msan else "no MSan build (clang missing or the harness does not build with it)"))
     return [(k, w) for k in sorted(found) for w in found[k]]
